@@ -61,6 +61,9 @@ func TestKnown_compactor_unstable_block_order(t *testing.T) {
 		if err != nil {
 			t.Fatal(err)
 		}
+		if key == KeyNoTermination {
+			rec.Fail(t, "TestKnown_compactor_unstable_block_order", key, mode+": "+detail, c)
+		}
 		if key != "" {
 			reproduced = true
 			cj = c
